@@ -62,18 +62,36 @@ type c13Variant struct {
 	shallow mrepo.ID      // content of .git/shallow ("" = none)
 }
 
-func c13Variants(b c13Base) []c13Variant {
+func c13Variants(b c13Base, tier string) []c13Variant {
 	id := b.ids
 	vs := []c13Variant{{name: "plain"}}
+	if tier == "thorough" {
+		// every reachable object replaced in turn by the spare object of its kind
+		spare := map[mrepo.Kind]mrepo.ID{mrepo.Commit: id["orphan"], mrepo.Tree: id["bigTree"], mrepo.Blob: id["bigBlob"], mrepo.Tag: id["otherTag"]}
+		reach := oracle.Compute(b.repo, (&gen.Scenario{Repo: b.repo}).Roots()).Reach
+		for _, oid := range b.repo.Order {
+			if reach[oid] {
+				k := b.repo.Objects[oid].Kind
+				vs = append(vs, c13Variant{name: fmt.Sprintf("replace every object in turn: %s %s", k, oid.Short()), replace: [][2]mrepo.ID{{oid, spare[k]}}})
+			}
+		}
+		// every commit grafted in turn onto the orphan, and cut off from its parents
+		for _, oid := range b.repo.Order {
+			if reach[oid] && b.repo.Objects[oid].Kind == mrepo.Commit {
+				vs = append(vs, c13Variant{name: "graft every commit in turn: redirect " + oid.Short(), grafts: []string{fmt.Sprintf("%s %s", oid, id["orphan"])}})
+				vs = append(vs, c13Variant{name: "graft every commit in turn (environment): cut " + oid.Short(), envGraf: []string{string(oid)}})
+			}
+		}
+	}
 	for _, rp := range [][3]string{{"commit other parents+tree", "c1", "orphan"}, {"commit tip", "tip", "orphan"}, {"tree bigger", "t1", "bigTree"},
 		{"subtree", "sub", "bigTree"}, {"blob bigger", "blobB", "bigBlob"}, {"tag other", "ta", "otherTag"}} {
 		vs = append(vs, c13Variant{name: "replace " + rp[0], replace: [][2]mrepo.ID{{id[rp[1]], id[rp[2]]}}})
 		vs = append(vs, c13Variant{name: "replace " + rp[0] + " +GIT_NO_REPLACE_OBJECTS", replace: [][2]mrepo.ID{{id[rp[1]], id[rp[2]]}}, noRepl: true})
 	}
 	graftLines := map[string]string{
-		"add parent":   fmt.Sprintf("%s %s %s", id["c1"], id["c0"], id["orphan"]),
-		"drop parents": string(id["c1"]),
-		"redirect":     fmt.Sprintf("%s %s", id["c1"], id["orphan"]),
+		"add parent":       fmt.Sprintf("%s %s %s", id["c1"], id["c0"], id["orphan"]),
+		"drop parents":     string(id["c1"]),
+		"redirect":         fmt.Sprintf("%s %s", id["c1"], id["orphan"]),
 		"root gets parent": fmt.Sprintf("%s %s", id["c0"], id["orphan"]),
 	}
 	for _, k := range []string{"add parent", "drop parents", "redirect", "root gets parent"} {
@@ -116,7 +134,9 @@ func c13Modes() []c13Mode {
 	return []c13Mode{
 		{"top of the work tree", func(w, wt2, bare, el string, env, a []string) cli.Result { return sizer(w, env, a) }},
 		{"subdirectory", func(w, wt2, bare, el string, env, a []string) cli.Result { return sizer(filepath.Join(w, "d"), env, a) }},
-		{"inside .git", func(w, wt2, bare, el string, env, a []string) cli.Result { return sizer(filepath.Join(w, ".git"), env, a) }},
+		{"inside .git", func(w, wt2, bare, el string, env, a []string) cli.Result {
+			return sizer(filepath.Join(w, ".git"), env, a)
+		}},
 		{"bare copy", func(w, wt2, bare, el string, env, a []string) cli.Result { return sizer(bare, env, a) }},
 		{"linked worktree", func(w, wt2, bare, el string, env, a []string) cli.Result { return sizer(wt2, env, a) }},
 		{"GIT_DIR absolute, unrelated cwd", func(w, wt2, bare, el string, env, a []string) cli.Result {
@@ -142,7 +162,7 @@ func c13Worker(sh *explore.Shard) {
 		if sh.Tier != "thorough" && bi > 0 && false {
 			continue
 		}
-		for _, v := range c13Variants(b) {
+		for _, v := range c13Variants(b, sh.Tier) {
 			idx++
 			if !sh.Mine(idx) || sh.Expired() {
 				continue
@@ -302,6 +322,6 @@ func c13Case(sh *explore.Shard, bi int, b c13Base, v c13Variant, modes []c13Mode
 
 func init() {
 	Registry["C13"] = &Check{Level: "exploration", Worker: c13Worker, QuickBudget: 80 * time.Second, ThoroughBudget: 10 * time.Minute,
-		Rule: "real binary + real git: 2 base repositories x {plain; every single replacement of a commit, tip commit, tree, subtree, blob, tag by an otherwise unreachable bigger/other object, with and without GIT_NO_REPLACE_OBJECTS in the caller's environment; every single graft (add a parent, drop all parents, redirect, give the root a parent) in .git/info/grafts and in a file named by GIT_GRAFT_FILE in the caller's environment; a shallow marker} x 9 addressing modes (top, subdirectory, inside .git, bare copy, linked worktree, GIT_DIR absolute from elsewhere, GIT_DIR relative, git -C <dir> sizer, git --git-dir=<d> sizer) x {JSON, verbose table}: stdout byte-identical across modes; numbers equal the oracle on the objects actually stored (refs/replace/* counting as ordinary references); shallow refused cleanly in every mode; plus, through fakegit's log, every git command of a run carries --no-replace-objects, GIT_GRAFT_FILE=/dev/null and the resolved GIT_DIR even when the caller's environment sets other values. non-trivial = every variant",
+		Rule:        "real binary + real git: 2 base repositories x {plain; every single replacement of a commit, tip commit, tree, subtree, blob, tag by an otherwise unreachable bigger/other object, with and without GIT_NO_REPLACE_OBJECTS in the caller's environment; every single graft (add a parent, drop all parents, redirect, give the root a parent) in .git/info/grafts and in a file named by GIT_GRAFT_FILE in the caller's environment; a shallow marker; thorough additionally replaces every reachable object in turn and grafts every commit in turn} x 9 addressing modes (top, subdirectory, inside .git, bare copy, linked worktree, GIT_DIR absolute from elsewhere, GIT_DIR relative, git -C <dir> sizer, git --git-dir=<d> sizer) x {JSON, verbose table}: stdout byte-identical across modes; numbers equal the oracle on the objects actually stored (refs/replace/* counting as ordinary references); shallow refused cleanly in every mode; plus, through fakegit's log, every git command of a run carries --no-replace-objects, GIT_GRAFT_FILE=/dev/null and the resolved GIT_DIR even when the caller's environment sets other values. non-trivial = every variant",
 		Assumptions: []string{"git 2.39.5; the linked worktree is created with git worktree add (detached at the root commit)"}}
 }
